@@ -462,6 +462,16 @@ fn rand_op(rng: &mut Rng, n: usize, strings: &[u16]) -> FOp {
 // name fields, print formats) may point at its own copy of the string, appended to the pool. The image
 // denotes the same program; only an implementation that confuses "same index" with "same name" differs.
 
+/// A minimal runnable program padded with distinct integer constants to exactly `n` pool entries.
+pub fn boundary_pool_model(n: usize) -> FModel {
+    let mut consts: Vec<FConst> = vec![FConst::Str("λ:".into()), FConst::Method { name: 0, arity: 0, locals: 0, code: vec![FOp::Literal(2), FOp::Return] }];
+    while consts.len() < n {
+        let i = consts.len() as i32;
+        consts.push(FConst::Int(i));
+    }
+    FModel { consts, globals: vec![], entry: 1 }
+}
+
 pub fn without_interning(m: &FModel, seed: u64) -> FModel {
     let mut rng = Rng::from_u64(seed ^ 0x6e6f_696e_7465_726e);
     let mut out = m.clone();
